@@ -17,9 +17,8 @@ back end that refines the rows (`Refines`; instances `fockRefines`, `gaussRefine
 construction with its deferred commands + engine + simulator) simulates the abstract, immediate semantics `aStep`:
 an event is accepted iff the abstract rows accept it, a rejected event changes nothing, running a segment never
 raises, and after it `Program.register = get_modes() = live` and `state(modes=None) = Rows.state` (live indices
-ascending, each with its own data).  The bosonic back end satisfies this for the first non-empty segment of an
-engine life only (`agree_bosonic_first_segment`); beyond that it is false (`bosonic_segment_counterexample`, the known
-finding shared with C09).
+ascending, each with its own data).  Since the per-segment re-initialisation of the bosonic back end was repaired
+(2edf520) all three back ends are instances (`fock_refines`, `gaussian_refines`, `bosonic_refines`).
 -/
 set_option linter.unusedSectionVars false
 namespace SFV.C08
@@ -251,37 +250,26 @@ theorem can_follow_fresh (n : Nat) (q prev : Prog) (hq : Prog.fresh n = .ok q) (
     q.canFollow prev.regRefs = true ↔ (prev.regRefs.length = n ∧ prev.flags = List.replicate n true) :=
   canFollow_fresh prev hq hp
 
-/-! ### known finding: the bosonic back end re-instantiates the simulator for every non-empty segment -/
+/-! ### bosonic back end -/
 
-/-- 3 modes, `Del q[1]` in the first segment, a displacement of `q[0]` in the second -/
-def bosHist : List Ev :=
-  [.use [.own 2] 3 [], .del [.own 1], .endProg, .use [.own 0] 1 [], .endProg]
+/-- **the bosonic back end refines the rows**: the first non-empty program of a computation runs through `init_circuit`
+(new simulator, the `New`s of the segment hoisted), continuations are executed command by command on the simulator as
+it is, empty programs do nothing — so `agree` / `agree_after_run` hold for every history on the bosonic engine too -/
+theorem bosonic_refines : Refines (bosOps D) (fun b => PS.abs b.1) (BosInv (D := D)) := bosRefines
 
-/-- after the second segment the register is `[0, 2]` but the simulator reports modes `[0, 1]` (and has lost the
-data of the first segment) -/
-theorem bosonic_segment_counterexample :
-    (match Sys.init (bosOps Int) 3 with
-     | .ok s => let t := runHist (bosOps Int) s bosHist
-                (t.prog.register, (bosOps Int).getModes t.be, (bosOps Int).stateNone t.be)
-     | .error _ => ([], [], .ok []))
-    = ([0, 2], [0, 1], .ok [(0, 1), (1, 0)]) := by decide +kernel
-
-/-- bosonic, what remains true — **the whole first segment of an engine life**: after any program-building events on a
-new engine, `eng.run` succeeds (the `New`s are hoisted by `init_circuit`, anything the simulator held is discarded) and
-register, `get_modes()`, live set and returned state agree -/
-theorem agree_bosonic_first_segment (n : Nat) (s : Sys (PS D)) (es : List Ev) (hinit : Sys.init (bosOps D) n = .ok s)
-    (hes : es.all Ev.isProg = true) :
-    ∃ s', step (bosOps D) (runHist (bosOps D) s es) .endProg = .ok s' ∧
-      s'.prog.register = Rows.live (aRunHist (List.replicate n (some (DataSem.vac : D))) es) ∧
-      PS.getModes s'.be = Rows.live (aRunHist (List.replicate n (some (DataSem.vac : D))) es) ∧
-      PS.stateNone s'.be = .ok (Rows.state 0 (aRunHist (List.replicate n (some (DataSem.vac : D))) es)) :=
-  bos_first_segment_hist n s es hinit hes
-
-/-- … at the level of `run_prog`: any accepted command sequence (with `New`s anywhere), whatever the simulator held -/
-theorem bosonic_run_prog_first_segment (n : Nat) (cs : List Cmd) (b : PS D) (r' : Rows D) (hne : cs ≠ [])
+/-- `run_prog` of the first non-empty segment: any accepted command sequence (with `New`s anywhere) -/
+theorem bosonic_run_prog_first_segment (n : Nat) (cs : List Cmd) (r' : Rows D)
     (hr : Rows.run cs (List.replicate n (some (DataSem.vac : D))) = some r') :
-    ∃ s', PS.bosRun n cs b = .ok s' ∧ PSInv s' ∧ s'.abs = r' :=
-  bosRun_first_segment n cs b r' hne hr
+    ∃ s', PS.bosLoop cs (PS.bosInit n cs : PS D) = .ok s' ∧ PSInv s' ∧ s'.abs = r' :=
+  bosLoop_first n cs r' hr
+
+/-- **ancilla-assisted gate** (`MSgate(avg=False)` → `mb_squeeze_single_shot`): the temporary ancilla mode leaves
+`nlen`, `active` and every stored row as they were — in particular deleted modes stay deleted — for every live target;
+a deleted or unknown target is rejected -/
+theorem msgate_keeps_bookkeeping (s : PS D) (hs : PSInv s) (k : Nat) :
+    (Rows.liveAt s.abs k = true → s.msSingleShot k = .ok s) ∧
+    (Rows.liveAt s.abs k = false → ∃ e, s.msSingleShot k = .error e) :=
+  ⟨PS.msSingleShot_ok s hs k, PS.msSingleShot_rejects s hs k⟩
 
 /-! ### non-vacuity -/
 
@@ -344,13 +332,20 @@ example : ∃ p : Prog, (Prog.fresh 3 >>= fun p => p.delOp [.own 1]) = .ok p ∧
       | .error e => some e
       | .ok _ => none) = some .runtime := ⟨_, rfl, by decide⟩
 
-/-- `agree_bosonic_first_segment`: New(2) as first command, a gate on a new mode, Del of an old one — one segment -/
+/-- `bosonic_refines`: New(2) as first command, a gate on a new mode, Del of an old one; a second segment goes on with
+the data of the first (what used to be the known finding) -/
 example : (match Sys.init (bosOps Int) 1 with
-    | .ok s => match step (bosOps Int) (runHist (bosOps Int) s [.new 2, .use [.own 2] 3 [], .del [.own 0]]) .endProg with
-      | .ok t => (t.prog.register, PS.getModes t.be, PS.stateNone t.be)
-      | .error _ => ([], [], .ok [])
-    | .error _ => ([], [], .ok []))
-    = ([1, 2], [1, 2], .ok [(1, 0), (2, 3)]) := by decide +kernel
+    | .ok s => let t := runHist (bosOps Int) s [.new 2, .use [.own 2] 3 [], .del [.own 0], .endProg, .use [.own 1] 1 [],
+                                              .new 1, .endProg]
+               (t.prog.register, PS.getModes t.be.1, PS.stateNone t.be.1, t.be.2)
+    | .error _ => ([], [], .ok [], false))
+    = ([1, 2, 3], [1, 2, 3], .ok [(1, 1), (2, 3), (3, 0)], true) := by decide +kernel
+
+/-- `msgate_keeps_bookkeeping`: 3 modes, `Del q[1]`; the single-shot gate on `q[2]` returns the same simulator, on the
+deleted `q[1]` it raises -/
+example : ∃ s : PS Int, PS.runCircuit [⟨.gate 2, [2]⟩, ⟨.delete, [1]⟩] (PS.begin 3) = .ok s ∧
+    s.msSingleShot 2 = .ok s ∧ s.msSingleShot 1 = .error .value ∧ s.msSingleShot 5 = .error .index ∧
+    s.active = [some 0, none, some 2] := ⟨_, rfl, by decide, by decide, by decide, by decide⟩
 
 /-- `state_modes_exact`: 4 modes carrying 1,2,3,4; `Del q[1]`; the cyclic request `[3, 0, 2]` returns subsystems 3, 0, 2
 with their own data on Fock and Gaussian and `0, 2, 3` on bosonic; the deleted index 1 and the unknown index 7 are refused -/
